@@ -37,6 +37,7 @@ CFG = dict(
                  "npre <= 2^17 and N <= 2^20 so that the code's running sums are exact in binary64 (generator stays far below)",
                  "matrix entries are finite with binary exponents in [-30,20]: products stay far inside the binary64/binary32 range",
                  "IEEE rounding and gonum's MulVec/SubVec kernels are NOT modelled: covered only by the tolerance comparison"],
+    lean_files=["C13", "ComposeAnalysis"],
     timeout=dict(quick=600, thorough=3600),
 )
 
@@ -84,4 +85,9 @@ THEOREMS = [
     ("DastardV.Props.C13", "DastardV.C13.C13_oracle_accepts_exact"),
     ("DastardV.Props.C13", "DastardV.C13.analyze_record_only"),
     ("DastardV.Props.C13", "DastardV.C13.analyze_record_only_len"),
+    ("DastardV.Lemmas.ComposeAnalysis", "DastardV.Compose.chanRecs_signed"),
+    ("DastardV.Lemmas.ComposeAnalysis", "DastardV.Compose.record_is_stream_excerpt"),
+    ("DastardV.Lemmas.ComposeAnalysis", "DastardV.Compose.analysis_of_stream_excerpt"),
+    ("DastardV.Lemmas.ComposeAnalysis", "DastardV.Compose.analysis_values_of_stream_excerpt"),
+    ("DastardV.Lemmas.ComposeAnalysis", "DastardV.Compose.analyze_of_stream_excerpt"),
 ]
